@@ -6,7 +6,7 @@ import os
 from . import envctl, interpose, sched
 from .adapters import KeyMap, ValMap, R, tag_model, exp_model
 from .envctl import MachineryError
-from .seqdriver import ApiAdapter, POLICY
+from .seqdriver import ApiAdapter, POLICY, implicit_retry
 
 
 class ProgramAbort(Exception):
@@ -33,6 +33,12 @@ class ConcRunner:
                              size_limit=cfg['limit'], statistics=cfg['stats'],
                              disk_min_file_size=cfg.get('min_file_size', 2 ** 15))
         self.timeout = cfg.get('timeout', 0)
+        self.kind = cfg.get('kind', 'cache')
+        self.parent = self.dir
+        if self.kind in ('fanout', 'django'):
+            diskcache.FanoutCache(self.parent, shards=1, timeout=1, **self.settings).close()
+            self.dir = os.path.join(self.parent, '000')
+            interpose.install(None, self.dir)
         base = diskcache.Cache(self.dir, timeout=1, **self.settings)
         self.km = KeyMap(base.disk.pickle_protocol)
         self.vm = ValMap(cfg.get('min_file_size', 2 ** 15), base.disk.pickle_protocol)
@@ -47,9 +53,14 @@ class ConcRunner:
         self.sched.inject = inject
         self.shared = None
         if cfg.get('shared'):
-            self.shared = diskcache.Cache(self.dir, timeout=self.timeout)
+            self.shared = self.make_handle()
         self.caches = {}
         self.nreal = max(program)
+
+    def make_handle(self):
+        if self.kind == 'fanout':
+            return self.dc.FanoutCache(self.parent, shards=1, timeout=self.timeout)
+        return self.dc.Cache(self.dir, timeout=self.timeout)
 
     # snapshot through a given connection (sees that connection's uncommitted changes)
     def snapshot(self, conn):
@@ -102,6 +113,7 @@ class ConcRunner:
         def body(c):
             cache = self.caches[cid]
             its = []
+            lockcon = [None]
             depth = [0]
             resume = [0]
             i = 0
@@ -151,6 +163,29 @@ class ConcRunner:
                         continue
                     if name == 'txend':
                         return i
+                    if name == 'lock':
+                        # an independent client holding the write lock: a raw connection, not diskcache code
+                        self.sched.yield_point('call', name)
+                        self.sched.emit({'ev': 'call', 'c': cid, 'op': 'txbegin', 'a': {}, 'now': self.clock.tick})
+                        import sqlite3 as _sq
+                        lockcon[0] = _sq.connect(os.path.join(self.dir, 'cache.db'), timeout=0, isolation_level=None)
+                        try:
+                            lockcon[0].execute('BEGIN IMMEDIATE')
+                            self.sched.emit({'ev': 'ret', 'c': cid, 'ret': R('none')})
+                        except _sq.OperationalError:
+                            self.sched.emit({'ev': 'ret', 'c': cid, 'ret': R('Timeout')})
+                            lockcon[0].close()
+                            lockcon[0] = None
+                        continue
+                    if name == 'unlock':
+                        if lockcon[0] is not None:
+                            self.sched.yield_point('call', name)
+                            self.sched.emit({'ev': 'call', 'c': cid, 'op': 'txend', 'a': {}, 'now': self.clock.tick})
+                            lockcon[0].execute('COMMIT')
+                            self.sched.emit({'ev': 'ret', 'c': cid, 'ret': R('none')})
+                            lockcon[0].close()
+                            lockcon[0] = None
+                        continue
                     if name == 'iter_open':
                         # a suspended iterator: its own pseudo client (cid + nreal) for the monitor
                         self.sched.yield_point('call', name)
@@ -191,8 +226,11 @@ class ConcRunner:
                         continue
                     if 'v' in a and name in ('set', 'add', 'push'):
                         a['sz'] = self.vm.size(a['v'])
+                    if implicit_retry(name, a, op.get('form', 0)):
+                        a['retry'] = 1
                     self.sched.emit({'ev': 'call', 'c': cid, 'op': name, 'a': a, 'now': self.clock.tick})
-                    ret = self.api.call(cache, name, a, op.get('form', 0))
+                    ret = self.api.call(cache, name, {k: v for k, v in a.items() if k != 'retry' or op.get('a', {}).get('retry')},
+                                        op.get('form', 0))
                     self.sched.emit({'ev': 'ret', 'c': cid, 'ret': ret})
                     if depth[0] > 0 and self.cfg.get('faulty') and \
                             ret['k'] in ('OSError', 'OperationalError', 'StreamError', 'InterfaceError', 'ProgrammingError'):
@@ -215,11 +253,11 @@ class ConcRunner:
     def run(self):
         try:
             for cid, ops in sorted(self.program.items()):
-                cache = self.shared if self.shared is not None else \
-                    self.dc.Cache(self.dir, timeout=self.timeout)
+                cache = self.shared if self.shared is not None else self.make_handle()
                 self.caches[cid] = cache
                 # per-thread connection is opened (and its pragmas set) before the scheduled part
-                self.sched.add_client(cid, self._client(cid, ops), warmup=cache.__enter__)
+                warm = cache.__enter__ if self.kind == 'cache' else (lambda cc=cache: len(cc))
+                self.sched.add_client(cid, self._client(cid, ops), warmup=warm)
             init = self.snapshot(self.base._con)
             init['files'] = self.listing()
             events = self.sched.run()
@@ -233,7 +271,8 @@ class ConcRunner:
                              'limit': self.cfg['limit'], 'stats': 1 if self.cfg['stats'] else 0,
                              'rows': init['rows'], 'ctr': init['ctr'], 'files': init['files'],
                              'shared': 1 if self.cfg.get('shared') else 0,
-                             'faulty': 1 if self.cfg.get('faulty') else 0},
+                             'faulty': 1 if self.cfg.get('faulty') else 0,
+                             'sharded': 1 if self.kind in ('fanout', 'django') else 0},
                     'cfg': {k: v for k, v in self.cfg.items() if k != 'init'},
                     'nc': 2 * self.nreal, 'program': self.program, 'schedule': list(self.sched.choices), 'ev': events}
         finally:
@@ -249,7 +288,7 @@ class ConcRunner:
         interpose.set_listener(None)
         self.clock.uninstall()
         envctl.SeededUrandom.uninstall()
-        envctl.rm(self.dir)
+        envctl.rm(self.parent)
 
 
 def run_program(cfg, program, strategy, seed=0, tid=1, fault=None, inject=None):
